@@ -250,6 +250,165 @@ pub fn runs_for(msgs: &[usize], alpha: &[(&'static str, Vec<u8>)], max_cuts: usi
 }
 
 // -------------------------------------------------------------------------------------------
+// Unseamed replays: the same executions over real loopback TCP sockets, hooks inactive
+// -------------------------------------------------------------------------------------------
+
+#[derive(Debug, PartialEq, Clone)]
+pub enum Terminal {
+    Waiting,
+    Eof,
+    Err(String),
+}
+
+/// Frames and ending the pipe branch produces for a run (no oracle).
+fn pipe_outcome(stream: &[u8], r: &Run) -> (Vec<Vec<u8>>, Terminal) {
+    let end = r.eof_at.unwrap_or(stream.len());
+    let mut bounds: Vec<usize> = r.cuts.iter().cloned().filter(|c| *c > 0 && *c < end).collect();
+    bounds.push(end);
+    let pipe = MemPipe::new();
+    let mut conn = Connection::new("peer".to_string());
+    conn.verif_with_mem(pipe.clone());
+    let mut frames = vec![];
+    let mut prev = 0;
+    let mut feeds: Vec<Option<(usize, usize)>> = bounds.iter().filter_map(|b| { let r = if *b > prev { Some(Some((prev, *b))) } else { None }; prev = *b; r }).collect();
+    if r.eof_at.is_some() {
+        feeds.push(None);
+    }
+    for f in feeds {
+        match f {
+            Some((a, b)) => pipe.feed(&stream[a..b]),
+            None => pipe.close(),
+        }
+        loop {
+            match poll_once(&mut conn) {
+                Ok(Got::Frame(f)) => frames.push(f),
+                Ok(Got::Pending) => break,
+                Ok(Got::Eof) => return (frames, Terminal::Eof),
+                Ok(Got::Err(e)) => return (frames, Terminal::Err(format!("{:?}", e))),
+                Err(p) => return (frames, Terminal::Err(format!("panic: {}", p))),
+            }
+        }
+    }
+    (frames, Terminal::Waiting)
+}
+
+/// The same run through an unhooked `Connection` over a real loopback TCP connection.
+fn tcp_outcome(rt: &tokio::runtime::Runtime, stream: &[u8], r: &Run) -> Result<(Vec<Vec<u8>>, Terminal), String> {
+    use tokio::io::AsyncWriteExt;
+    let end = r.eof_at.unwrap_or(stream.len());
+    let mut bounds: Vec<usize> = r.cuts.iter().cloned().filter(|c| *c > 0 && *c < end).collect();
+    bounds.push(end);
+    let close = r.eof_at.is_some();
+    let data = stream.to_vec();
+    rt.block_on(async move {
+        let listener = tokio::net::TcpListener::bind("127.0.0.1:0").await.map_err(|e| e.to_string())?;
+        let addr = listener.local_addr().map_err(|e| e.to_string())?;
+        let writer = tokio::spawn(async move {
+            let mut sock = tokio::net::TcpStream::connect(addr).await.expect("loopback connect");
+            sock.set_nodelay(true).ok();
+            let mut prev = 0;
+            for b in bounds {
+                if b > prev {
+                    sock.write_all(&data[prev..b]).await.expect("loopback write");
+                    sock.flush().await.ok();
+                    tokio::time::sleep(std::time::Duration::from_millis(3)).await;
+                }
+                prev = b;
+            }
+            if close {
+                drop(sock);
+                None
+            } else {
+                Some(sock) // keep the connection open until the reader is done
+            }
+        });
+        let (server, _) = listener.accept().await.map_err(|e| e.to_string())?;
+        let mut conn = Connection::new("peer".to_string());
+        conn.with_socket(server);
+        let mut frames = vec![];
+        let terminal;
+        let mut keep = writer;
+        let mut held_socket = None;
+        let mut writer_done = false;
+        let mut deadline = tokio::time::Instant::now() + std::time::Duration::from_secs(20);
+        loop {
+            // "waiting" is only concluded after the writer has written everything and a grace
+            // period passed; the receive branch is polled first, so a stalled thread cannot turn
+            // buffered data into a spurious "waiting"
+            tokio::select! {
+                biased;
+                r = conn.recv_frame() => match r {
+                    Ok(Some(f)) => frames.push(crate::c07::frame_bytes(&f)),
+                    Ok(None) => {
+                        terminal = Terminal::Eof;
+                        break;
+                    }
+                    Err(e) => {
+                        terminal = Terminal::Err(format!("{:?}", e));
+                        break;
+                    }
+                },
+                s = &mut keep, if !writer_done => {
+                    writer_done = true;
+                    held_socket = s.ok().flatten();
+                    deadline = tokio::time::Instant::now() + std::time::Duration::from_millis(150);
+                }
+                _ = tokio::time::sleep_until(deadline) => {
+                    terminal = Terminal::Waiting;
+                    break;
+                }
+            }
+        }
+        drop(held_socket);
+        Ok((frames, terminal))
+    })
+}
+
+fn unseamed_part(ctx: &Ctx) -> (u64, u64) {
+    let alpha = alphabet();
+    let mut cases: Vec<(Vec<usize>, Run)> = vec![];
+    let n = alpha.len();
+    let mut seqs: Vec<Vec<usize>> = (0..n).map(|a| vec![a]).collect();
+    for a in 0..n {
+        for b in 0..n {
+            if ctx.tier == core::Tier::Thorough || (a + 2 * b) % 7 == 0 {
+                seqs.push(vec![a, b]);
+            }
+        }
+    }
+    for msgs in seqs {
+        let stream: Vec<u8> = msgs.iter().flat_map(|m| alpha[*m].1.clone()).collect();
+        let len = stream.len();
+        let first = alpha[msgs[0]].1.len();
+        cases.push((msgs.clone(), Run { msgs: msgs.clone(), cuts: vec![], eof_at: None }));
+        cases.push((msgs.clone(), Run { msgs: msgs.clone(), cuts: vec![3.min(len - 1).max(1), first.min(len - 1).max(1)], eof_at: Some(len) }));
+        cases.push((msgs.clone(), Run { msgs: msgs.clone(), cuts: vec![5.min(len - 1).max(1)], eof_at: Some((len * 2 / 3).max(1)) }));
+    }
+    let res = core::par_map(
+        &cases,
+        |_| {
+            core::set_quiet_panics(true);
+            tokio::runtime::Builder::new_current_thread().enable_all().build().expect("runtime")
+        },
+        |rt, _, (msgs, run)| {
+            let stream: Vec<u8> = msgs.iter().flat_map(|m| alpha[*m].1.clone()).collect();
+            let a = pipe_outcome(&stream, run);
+            match tcp_outcome(rt, &stream, run) {
+                Ok(b) if a == b => None,
+                Ok(b) => Some(format!("stream {:?} cuts {:?} eof_at {:?}: in-memory pipe gave {} frames / {:?}, loopback TCP gave {} frames / {:?}", msgs.iter().map(|m| alpha[*m].0).collect::<Vec<_>>(), run.cuts, run.eof_at, a.0.len(), a.1, b.0.len(), b.1)),
+                Err(e) => Some(format!("loopback TCP run failed: {}", e)),
+            }
+        },
+    );
+    let mut bad = 0;
+    for r in res.into_iter().flatten() {
+        bad += 1;
+        ctx.machinery_error(format!("unseamed replay mismatch: {}", r));
+    }
+    (cases.len() as u64, bad)
+}
+
+// -------------------------------------------------------------------------------------------
 // E-SYS part: undecodable / truncated endings inside the real connection task
 // -------------------------------------------------------------------------------------------
 
@@ -423,8 +582,11 @@ pub fn run(ctx: &Ctx) -> Outcome {
     let failing_streams = results.iter().filter(|r| r.3.is_some()).count();
 
     let (term_cases, term_bad) = termination_part(ctx);
+    let (unseamed, unseamed_bad) = unseamed_part(ctx);
 
     let mut o = Outcome::new("model_checking");
+    o.set("unseamed_replays", json!(unseamed));
+    o.set("unseamed_replay_mismatches", json!(unseamed_bad));
     o.set("termination_cases_in_real_task", json!(term_cases));
     o.set("termination_cases_violating", json!(term_bad));
     o.set("states", json!(seqs.len()));
@@ -442,6 +604,7 @@ pub fn run(ctx: &Ctx) -> Outcome {
     }).collect()));
     o.assume("an error is due once the whole undecodable message (or the 5-byte header of an oversized one, or the 68 bytes of a handshake with a wrong protocol string) has been delivered; unknown ids in the alphabet are 9 and 20; id 0x54 (which this implementation uses to recognise a handshake by its fifth byte) is deliberately outside the alphabet");
     o.assume("E-SYS part: 2 directions x 3 valid prefixes x 9 undecodable/closed/reset endings x {one read, split after 5 bytes} in a real PeerHandler::run() task with the real manager; the task must have ended and the manager must have dropped the peer in the quiescent step in which the last offending byte / EOF / RST arrived");
+    o.assume("unseamed replays: a covering set of streams (every single message, pairs) in three segmentation/ending shapes is also sent over a real loopback TCP connection into an unhooked Connection::with_socket; frames and ending must equal those of the in-memory pipe branch (a mismatch is a machinery error, not a verdict)");
     o.assume("reference stream decoder refwire.rs; recv_frame is polled with a no-op waker, Pending = the client asks for more bytes");
     o
 }
